@@ -5,6 +5,8 @@ package main
 import (
 	"fmt"
 	"go/token"
+	"go/types"
+	"sort"
 	"strings"
 	"unicode"
 
@@ -132,6 +134,7 @@ func checkC15(c *Ctx) {
 		}
 	}
 	checkURISafeSet(c, e)
+	ruleSpecBounds(c)
 	c.MinCount("BSET", len(classifierOracles))
 }
 
@@ -421,9 +424,101 @@ func init() {
 		Control{Name: "uri-verbatim-nonascii-letters", Props: []string{"C15"}, File: "html_renderer.go",
 			Old: "case (c < 0x80 && (isASCIILetter(byte(c)) || isASCIIDigit(byte(c)))) || strings.ContainsRune(safeSet, c):",
 			New: "case isASCIILetter(byte(c)) || isASCIIDigit(byte(c)) || strings.ContainsRune(safeSet, c):", Expect: "URI-SAFESET"},
+		Control{Name: "domain-label-64", Props: []string{"C15"}, File: "inlines.go",
+			Old: "for end < 63 && end < len(text)", New: "for end <= 63 && end < len(text)", Expect: "SPEC-BOUNDS/parseDomainLabel"},
+		Control{Name: "fence-needs-four-bytes", Props: []string{"C15"}, File: "blocks.go",
+			Old: "if len(line) < minConsecutive || (line[0] != '`' && line[0] != '~') {", New: "if len(line) <= minConsecutive || (line[0] != '`' && line[0] != '~') {", Expect: "SPEC-BOUNDS/parseCodeFence"},
+		Control{Name: "seven-hashes-heading", Props: []string{"C15"}, File: "blocks.go",
+			Old: "if h.level == 0 || h.level > 6 {", New: "if h.level == 0 || h.level > 7 {", Expect: "SPEC-BOUNDS/parseATXHeading"},
+		Control{Name: "neg-domain-label-bound-rewritten", Props: []string{"C15"}, File: "inlines.go", Negative: true,
+			Old: "for end < 63 && end < len(text)", New: "for 62 >= end && end < len(text)"},
 		Control{Name: "neg-isASCIIDigit-as-switch", Props: []string{"C15"}, File: "parse.go", Negative: true,
 			Old: "return '0' <= c && c <= '9'", New: "switch {\n\tcase c < '0':\n\t\treturn false\n\tcase c > '9':\n\t\treturn false\n\t}\n\treturn true"},
 		Control{Name: "neg-isHex-via-IndexByte", Props: []string{"C15"}, File: "html_renderer.go", Negative: true,
 			Old: "return 'a' <= c && c <= 'f' || 'A' <= c && c <= 'F' || isASCIIDigit(c)", New: "return strings.IndexByte(\"0123456789abcdefABCDEF\", c) >= 0"},
 	)
+}
+
+// ---------------------------------------------------------------------------------------------
+// SPEC-BOUNDS: numeric limits of the recognisers equal the spec's numbers
+
+type specBound struct {
+	fn    string
+	dir   string // "<=" : condition holds for values up to T ; ">=" : holds for values from T
+	T     int64
+	count int
+	src   string
+}
+
+var specBounds = []specBound{
+	{"parseATXHeading", ">=", 7, 1, "ATX heading: opening sequence of 1–6 '#' (reject from 7)"},
+	{"parseListMarker", "<=", 9, 1, "ordered list marker: 1–9 digits (positions 1..9 scanned)"},
+	{"parseLinkLabel", ">=", 999, 1, "link label: at most 999 characters (stop at 999)"},
+	{"parseLinkLabel", "<=", 998, 1, "link label: at most 999 characters (continue up to 998)"},
+	{"parseAutolink", "<=", 2, 1, "autolink scheme: at least 2 characters"},
+	{"parseAutolink", ">=", 34, 1, "autolink scheme: at most 32 characters"},
+	{"parseDomainLabel", "<=", 62, 1, "e-mail domain label: at most 63 characters"},
+	{"parseCharacterEscape", ">=", 8, 1, "hexadecimal character reference: 1–6 digits"},
+	{"parseCharacterEscape", ">=", 9, 1, "decimal character reference: 1–7 digits"},
+	{"parseCodeFence", "<=", 2, 2, "code fence: at least three fence characters (line length and run length)"},
+	{"parseThematicBreak", "<=", 2, 1, "thematic break: at least three characters"},
+	{"parseHardLineBreakSpace", "<=", 1, 2, "hard line break: at least two spaces"},
+}
+
+// thresholdsOf normalises every comparison of a non-constant integer with a constant in fn to (dir, T).
+func thresholdsOf(fn *ssa.Function) map[string]int {
+	out := map[string]int{}
+	eachInstr(fn, func(in ssa.Instruction) {
+		bo, ok := in.(*ssa.BinOp)
+		if !ok {
+			return
+		}
+		var k int64
+		var op token.Token
+		if c, ok := constInt(bo.Y); ok {
+			if _, isC := constInt(bo.X); isC {
+				return
+			}
+			k, op = c, bo.Op
+		} else if c, ok := constInt(bo.X); ok {
+			k = c
+			op = map[token.Token]token.Token{token.LSS: token.GTR, token.LEQ: token.GEQ, token.GTR: token.LSS, token.GEQ: token.LEQ}[bo.Op]
+		} else {
+			return
+		}
+		if b, ok := bo.X.Type().Underlying().(*types.Basic); !ok || b.Info()&types.IsInteger == 0 || b.Kind() == types.Uint8 {
+			return
+		}
+		switch op {
+		case token.LSS:
+			out[fmt.Sprintf("<=%d", k-1)]++
+		case token.LEQ:
+			out[fmt.Sprintf("<=%d", k)]++
+		case token.GTR:
+			out[fmt.Sprintf(">=%d", k+1)]++
+		case token.GEQ:
+			out[fmt.Sprintf(">=%d", k)]++
+		}
+	})
+	return out
+}
+
+func ruleSpecBounds(c *Ctx) {
+	c.Rule("SPEC-BOUNDS", "The numeric limits of the line and inline recognisers equal the numbers in CommonMark 0.30: every comparison of an integer with a constant is normalised to a threshold (V<c ≡ holds up to c-1, V>c ≡ holds from c+1, …) and each documented threshold must occur in its function (heading level 6, 9 list digits, 999 label characters, scheme length 2–32, domain label 63, 6 hexadecimal / 7 decimal reference digits, three fence / break characters, two spaces). Only the numbers are decided, not the recognisers' languages.")
+	for _, sb := range specBounds {
+		fn := c.P.Func(sb.fn)
+		key := fmt.Sprintf("%s:%s%d", sb.fn, sb.dir, sb.T)
+		if fn == nil || fn.Blocks == nil {
+			c.Undecided("SPEC-BOUNDS", key, token.NoPos, "recogniser "+sb.fn+" not resolved")
+			continue
+		}
+		th := thresholdsOf(fn)
+		got := th[fmt.Sprintf("%s%d", sb.dir, sb.T)]
+		var all []string
+		for k, n := range th {
+			all = append(all, fmt.Sprintf("%s×%d", k, n))
+		}
+		sort.Strings(all)
+		c.Check(got >= sb.count, "SPEC-BOUNDS", key, fn.Pos(), fmt.Sprintf("%s — expected %d comparison(s) with threshold %s%d, found %d (thresholds present: %s)", sb.src, sb.count, sb.dir, sb.T, got, strings.Join(all, " ")))
+	}
 }
